@@ -104,6 +104,15 @@ class JSXTag:
         self.attrs: JSXTagAttrDict = JSXTagAttrDict(**kwargs)
         self.children: TagList = TagList(*args)
 
+    def __copy__(self) -> "JSXTag":
+        # A copy owns its attrs and children (like Tag.__copy__), so that assigning into
+        # the copy, as tagify() does, leaves the original untouched.
+        cp = self.__class__.__new__(self.__class__)
+        cp.__dict__.update(self.__dict__)
+        cp.attrs = copy.copy(self.attrs)
+        cp.children = copy.copy(self.children)
+        return cp
+
     def extend(self, x: Iterable[TagNode]) -> None:
         self.children.extend(x)
 
@@ -121,20 +130,23 @@ class JSXTag:
         def tagify_tagifiable_and_get_metadata(x: Any) -> Any:
             if isinstance(x, Tagifiable) and not isinstance(x, (Tag, JSXTag)):
                 x = x.tagify()
-            else:
-                x = copy.copy(x)
+            # Always work on a copy: the walk assigns into the children (and attrs) of
+            # what is returned here, also when it is the result of a user's tagify().
+            x = copy.copy(x)
             if isinstance(x, MetadataNode):
                 metadata_nodes.append(x)
             return x
 
-        cp = copy.copy(self)
-        _walk_attrs_and_children(cp, tagify_tagifiable_and_get_metadata)
+        # The walk copies every object before it assigns into it (starting with self), so
+        # self and everything reachable from it are left as they are; cp is the fully
+        # tagified copy.
+        cp = _walk_attrs_and_children(self, tagify_tagifiable_and_get_metadata)
 
         # When _render_react_js()  is called on a JSXTag object, we'll recurse, but
         # instead of calling the standard Tag.get_html_string() method to format the
         # object, we'll recurse using _render_react_js(), which descends into the tree
         # and formats objects appropriately for inside of a JSX element.
-        component = _render_react_js(self, 2, "\n")
+        component = _render_react_js(cp, 2, "\n")
 
         # Ideally, we'd use document.currentScript.after() to insert the component
         # directly after the script tag, but when dynamically rendered via jQuery (i.e.,
